@@ -355,17 +355,29 @@ theorem validateDirectiveDefinitions_congr {st st' : LState} (E : StateEq st st'
 theorem finish_eq_ok {sd : SchemaDoc} {st : LState} {r0 r1 : Roots} {d0 d1 : List Directive}
     (hlen : sd.schema.length ≤ 1) (h0 : applySchemaDefs st sd.schema noRoots [] = .ok r0 d0)
     (h1 : applySchemaDefs st sd.schemaExt r0 d0 = .ok r1 d1) (ht : validateTypeDefinitions st = .pass)
-    (hd : validateDirectiveDefinitions st = .pass) : finish sd st = .ok (mkSchema sd st r1 d1) := by
+    (hd : validateDirectiveDefinitions st = .pass) (hk : checkRootKinds st (finalRoots sd st r1) = .pass) :
+    finish sd st = .ok (mkSchema sd st r1 d1) := by
   unfold finish
   split
   · rename_i a b c e; rw [e] at hlen; simp at hlen
-  · simp only [h0, h1, ht, hd]
+  · simp only [h0, h1, ht, hd, hk]
+
+/-- the root-kind check only reads the state through `type?` -/
+theorem checkRootKinds_congr {st st' : LState} (E : StateEq st st') {sd sd' : SchemaDoc} (hs : sd'.schema = sd.schema)
+    (r : Roots) : checkRootKinds st' (finalRoots sd' st' r) = checkRootKinds st (finalRoots sd st r) := by
+  have hl : ∀ n, st'.types.lookup n = st.types.lookup n := E.types
+  have hf : finalRoots sd' st' r = finalRoots sd st r := by
+    unfold finalRoots inferRoots inferRoot ptrOf
+    simp only [hs, hl]
+  rw [hf]
+  unfold checkRootKinds checkRootKind
+  simp only [E.types]
 
 /-- if a document loads, every permutation of its definitions loads -/
 theorem load_ok_of_defsPerm {sd sd' : SchemaDoc} (hp : DefsPerm sd sd') {s : Schema} (h : load sd = .ok s) :
     ∃ s', load sd' = .ok s' := by
   obtain ⟨st, r1, d1, F⟩ := loaded_facts h
-  obtain ⟨st0, r0, d0, r1', d1', hb, hlen, h0, h1, ht, hd, hs⟩ := load_ok_inv h
+  obtain ⟨st0, r0, d0, r1', d1', hb, hlen, h0, h1, ht, hd, hs, hk⟩ := load_ok_inv' h
   have : st0 = st := by rw [F.built] at hb; simpa using hb.symm
   subst this
   obtain ⟨st', hb', hperm, hdirs⟩ := buildState_perm hp hb
@@ -385,6 +397,7 @@ theorem load_ok_of_defsPerm {sd sd' : SchemaDoc} (hp : DefsPerm sd sd') {s : Sch
   · rw [hp.schemaExt, applySchemaDefs_congr E]; exact h1
   · exact validateTypeDefinitions_congr E ht
   · exact validateDirectiveDefinitions_congr E hd
+  · rw [checkRootKinds_congr E hp.schema]; exact hk
 
 end Gql.Load
 
@@ -423,7 +436,7 @@ structure SchemaEquiv (s s' : Schema) : Prop where
 theorem load_defsPerm_equiv {sd sd' : SchemaDoc} (hp : DefsPerm sd sd') {s : Schema} (h : load sd = .ok s) :
     ∃ s', load sd' = .ok s' ∧ SchemaEquiv s s' := by
   obtain ⟨st, r1, d1, F⟩ := loaded_facts h
-  obtain ⟨st0, r0, d0, r1', d1', hb, hlen, h0, h1, ht, hd, hs⟩ := load_ok_inv h
+  obtain ⟨st0, r0, d0, r1', d1', hb, hlen, h0, h1, ht, hd, hs, hk⟩ := load_ok_inv' h
   have : st0 = st := by rw [F.built] at hb; simpa using hb.symm
   subst this
   obtain ⟨st', hb', hperm, hdirs⟩ := buildState_perm hp hb
@@ -445,6 +458,7 @@ theorem load_defsPerm_equiv {sd sd' : SchemaDoc} (hp : DefsPerm sd sd') {s : Sch
     · rw [hp.schemaExt, applySchemaDefs_congr E]; exact h1
     · exact validateTypeDefinitions_congr E ht
     · exact validateDirectiveDefinitions_congr E hd
+    · rw [checkRootKinds_congr E hp.schema]; exact hk
   · subst hs
     have hroots : finalRoots sd' st' r1' = finalRoots sd st0 r1' := by
       unfold finalRoots inferRoots inferRoot ptrOf
